@@ -93,7 +93,7 @@ def fuse_programs(seed, n, kinds=("abelian", "fermionic"), syms=gen.SYMS, tids=N
         sym = syms[i % len(syms)]
         kind = kinds[(i // len(syms)) % len(kinds)]
         cfg = rng.choice([{}, {"cache": 0}, {"cache": 1}, {"cache": 8192, "cache_clear": True}])
-        dtype = rng.choice(["float64", "complex128", "float32"])
+        dtype = rng.choice(["float64", "complex128", "float32", "complex64"])
         progs.append(fuse_program(rng, tids(), sym, kind, cfg, dtype))
     return progs
 
